@@ -259,13 +259,49 @@ theorem derived_unknown_first_marker (fs : List (String × RVal)) (c : Col) (res
     derivedLoop fs (c :: rest) p w = (w, p, some (.valueMissingForColumn c.name)) := by
   unfold derivedLoop; rw [hc]
 
+/-- **Ok ⇒ the markers name exactly the declared fields**: every marker takes the value of a declared field of its name
+(contrapositive of `derived_unknown_marker_rejected`) and every declared field is named by a marker. -/
+theorem derived_byname_ok_names_eq (fs : List (String × RVal)) (cols : List Col) (sv : SV)
+    (h : fromSerializable (.derived fs) cols = .ok sv) (n : String) :
+    n ∈ cols.map (·.name) ↔ n ∈ fs.map Prod.fst := by
+  constructor
+  · intro hn
+    obtain ⟨c, hc, rfl⟩ := List.mem_map.1 hn
+    cases hidx : fieldIdx c.name fs 0 with
+    | none =>
+      obtain ⟨e, he⟩ := derived_unknown_marker_rejected fs cols c hc hidx
+      rw [he] at h; cases h
+    | some iv =>
+      obtain ⟨i, v⟩ := iv
+      have ⟨_, _, h3⟩ := fieldIdx_spec _ _ _ _ _ hidx
+      exact List.mem_map.2 ⟨(c.name, v), List.mem_of_getElem? h3, rfl⟩
+  · intro hn
+    obtain ⟨f, hf, rfl⟩ := List.mem_map.1 hn
+    obtain ⟨i, hi, rfl⟩ := List.getElem_of_mem hf
+    obtain ⟨c, hc, hcn⟩ := derived_byname_every_field_taken_partial fs cols sv h i hi
+    exact List.mem_map.2 ⟨c, hc, hcn⟩
+
+/-- **The full statement for marker lists WITHOUT repeated names** (field names distinct, as Rust requires): Ok ⇒ the
+marker names are a PERMUTATION of the declared field names — each field is taken by exactly one marker, each marker
+takes exactly one field. -/
+theorem derived_byname_every_field_taken (fs : List (String × RVal)) (cols : List Col) (sv : SV)
+    (hc : (cols.map (·.name)).Nodup) (hf : (fs.map Prod.fst).Nodup)
+    (h : fromSerializable (.derived fs) cols = .ok sv) :
+    (cols.map (·.name)).Perm (fs.map Prod.fst) ∧ cols.length = fs.length := by
+  have hp : (cols.map (·.name)).Perm (fs.map Prod.fst) :=
+    (List.perm_ext_iff_of_nodup hc hf).2 (fun n => derived_byname_ok_names_eq fs cols sv h n)
+  exact ⟨hp, by simpa using hp.length_eq⟩
+
 /-! non-vacuity on the fields `[c, b, a]` (declaration order = reverse alphabetical). -/
 private def cba : List (String × RVal) :=
   [("c", .scalar .i32 [0, 0, 0, 3]), ("b", .scalar .str [98]), ("a", .scalar .i32 [0, 0, 0, 1])]
 private def mk (n : String) (t : CqlTy) : Col := ⟨n, t⟩
+private def cols3 : List Col := [mk "a" (.native .int), mk "c" (.native .int), mk "b" (.native .text)]
 -- all three markers, in another order and with `a` repeated: accepted, 4 cells
 example : (match fromSerializable (.derived cba) [mk "a" (.native .int), mk "c" (.native .int), mk "a" (.native .int), mk "b" (.native .text)] with
     | .ok sv => sv.count | .error _ => 99) = 4 := by decide
+example : (cols3.map (·.name)).Nodup ∧ (cba.map Prod.fst).Nodup ∧
+    (match fromSerializable (.derived cba) cols3 with | .ok _ => true | .error _ => false) = true := by decide
 -- markers `a, a`: two columns serialized, fields c and b unvisited: the error names `c` (declared first), not `b`
 example : (match fromSerializable (.derived cba) [mk "a" (.native .int), mk "a" (.native .int)] with
     | .error e => e | .ok _ => .tooManyValues) = .noColumnWithName "c" := by decide
